@@ -11,6 +11,7 @@ import time
 
 sys.path.insert(0, os.path.dirname(os.path.abspath(__file__)))
 from lib import BASE, Peer, RawSession, mkserver, com_stmt_execute, T_VAR_STRING  # noqa: E402
+from mysql_mimic import Session  # noqa: E402
 
 
 def families():
@@ -33,13 +34,34 @@ def families():
     for name, f in fam.items():
         for n in sizes:
             yield name, n, f(n)
+    # a prepared statement executed with ONE short parameter that is a number written as text with a growing exponent, under
+    # every type code whose value is length-encoded text: a handful of bytes must not be expanded into megabytes of SQL
+    def execute(tcode, value):
+        return [b"\x16SELECT ?", lambda sid: b"\x17" + struct.pack("<IBI", sid, 0, 1) + b"\x00" + b"\x01" + bytes([tcode, 0]) + bytes([len(value)]) + value]
+    for tcode, tname in [(0x00, "DECIMAL"), (0xF6, "NEWDECIMAL"), (0xFD, "VAR_STRING"), (0x05, "DOUBLE-as-text"), (0x0F, "VARCHAR")]:
+        for exp in [10, 1000, 100000, 5000000, 60000000]:
+            yield "execute: %s parameter with a huge exponent" % tname, exp, execute(tcode, b"1e%d" % exp)
+
+
+class Plain(Session):
+    """an ordinary application: the library parses the statement before it gets here"""
+
+    async def query(self, expression, sql, attrs):
+        return [(1,)], ["a"]
 
 
 async def main():
     srv = mkserver((RawSession() for _ in range(10 ** 6)))
+    srv_plain = mkserver((Plain() for _ in range(10 ** 6)))
     for name, n, payload in families():
-        a = Peer(srv)
-        await a.login()
+        a = Peer(srv_plain if isinstance(payload, list) else srv)
+        if isinstance(payload, list):
+            await a.login(caps=int(BASE) & ~(1 << 27))      # without query attributes: the plain parameter block
+            for pre in payload[:-1]:
+                ack = await a.cmd(pre, n=10)
+            payload = payload[-1](struct.unpack_from("<I", ack[0][1], 1)[0])      # the statement id the PREPARE was answered with
+        else:
+            await a.login()
         # CPU time of this process, not wall-clock: a loaded machine must not look like a slow handler
         t0 = time.process_time()
         out = await a.cmd(payload, n=10)
